@@ -62,6 +62,15 @@ func (s *PollingFollowReader) Close() error {
 	return nil
 }
 
+// isOpenFile checks whether st describes the file that is currently open
+func (s *PollingFollowReader) isOpenFile(st os.FileInfo) bool {
+	if s.f == nil {
+		return false
+	}
+	cur, err := s.f.Stat()
+	return err == nil && os.SameFile(cur, st)
+}
+
 func (s *PollingFollowReader) Read(buf []byte) (int, error) {
 	if s.closed {
 		return 0, io.EOF
@@ -100,9 +109,9 @@ func (s *PollingFollowReader) Read(buf []byte) (int, error) {
 					s.readBytes = 0
 				}
 			}
-		} else { // No re-open, if the file's missing, that's EOF
-			_, err := os.Stat(s.filename)
-			if err != nil {
+		} else { // No re-open, if the file's missing (or the path is another file by now), that's EOF
+			st, err := os.Stat(s.filename)
+			if err != nil || !s.isOpenFile(st) {
 				s.Close()
 				return 0, io.EOF
 			}
